@@ -189,12 +189,12 @@ B("B65", "C04-T1", [(SCC, '''        if scc_sd.node_is_minimal(scc_node_id):
         else:
             # This node can be marked as expanded, because we know its successors.
             # We just need to add them in the for loop below.
-            if not''', '''        if scc_sd.node_is_minimal(scc_node_id):
+            if (''', '''        if scc_sd.node_is_minimal(scc_node_id):
             min_traps.append(main_node_id)
         if True:
             # This node can be marked as expanded, because we know its successors.
             # We just need to add them in the for loop below.
-            if not''')], "attach: minimal nodes of the sub-diagram marked expanded in the main diagram")
+            if (''')], "attach: minimal nodes of the sub-diagram marked expanded in the main diagram")
 B("B66", "C04-T1", [(SCC, "sd._ensure_edge(main_node_id, main_succ_id, inner_stable_motif)",
                      "sd._ensure_edge(main_succ_id, main_node_id, inner_stable_motif)")], "attach: edge direction swapped")
 B("B67", "C04-T1", [(SCC, '''    sd.node_data(attach_at)["expanded"] = True
